@@ -181,6 +181,11 @@ func genC09(seed int64, tier string) *Scenario {
 		use.WriteString("local nat = require(\"native\")\nprint(nat)\n")
 		sc.Knobs["native"] = true
 	}
+	if r.Intn(2) == 0 {
+		// multi-line table constructors with several members on one line (document symbols compute
+		// the table's extent from its members), global and local
+		use.WriteString("CfgTbl = {\n  first = 1,\n  width = 10, height = 20, depth = 30,\n}\nlocal LocTbl = {\n  p = 1, q = 2,\n  r = 3, s = 4,\n}\nprint(CfgTbl.width, LocTbl.q)\n")
+	}
 	twice := r.Intn(2) == 0
 	if twice {
 		// one file defines the same annotation type twice (legal: only a hint) and uses it between
